@@ -233,9 +233,22 @@ func genStage(r *rand.Rand, kind string) LStage {
 		return s
 	case "regexp":
 		names := distinctStrings(r, []string{"g1", "g2", "a", "zz"}, 1+r.Intn(2))
+		if r.Intn(3) == 0 {
+			// unnamed capturing groups among the named ones: they take a submatch index and expose nothing
+			k := r.Intn(len(names) + 1)
+			names = append(append(append([]string{}, names[:k]...), ""), names[k:]...)
+		}
 		g := 0
 		var re *Re
-		for g == 0 {
+		named := func() bool {
+			for _, n := range names[:g] {
+				if n != "" {
+					return true
+				}
+			}
+			return false
+		}
+		for g == 0 || !named() {
 			g = 0
 			re = genRe(r, 3, "xyae15.= ", &g, true, names)
 		}
